@@ -331,6 +331,11 @@ class FSM:
             dawgie.db.close()
             dawgie.context.git_rev = dawgie.context._rev()
             self.time_machine.reload()
+            # the scanner keeps what it found (registry of auto-registered
+            # classes) and imports with importlib, which the time machine
+            # never sees: forget both so that the coming load scans the
+            # software that is on disk now
+            dawgie.pl.scan.reset(dawgie.context.ae_base_package)
             pass
 
         log.info('exiting state updating (reload)')
